@@ -21,6 +21,7 @@ type Spec struct {
 	Assumptions []string  `json:"assumptions"`
 	Outside     []string  `json:"outside_bounds"`
 	Explanation string    `json:"explanation"`
+	MemLimitMB  int       `json:"mem_limit_mb"` // native replays run under this address-space limit
 	Probes      []string  `json:"probes"` // native functions run once on the real build; their VERIF-PROBE k=v lines become bounds
 }
 
@@ -258,6 +259,9 @@ func checkMain(args []string) int {
 		needNative := rs.Replay == "native"
 		if needNative && rep == nil {
 			rep, err = newNativeReplayer(&spec)
+			if err == nil {
+				rep.memLimitKB = spec.MemLimitMB * 1024
+			}
 			if err != nil {
 				fmt.Println("native replay build failed:", err)
 				problems = append(problems, "native replay build failed: "+firstLine(err.Error()))
